@@ -28,6 +28,15 @@ def main():
     if tier == "thorough":
         ienv["MEMBOUND_THOROUGH"] = "1"
     runs.append(("index", [bindir + "/membound-idx"], ienv))
+    # complementary free-running ThreadSanitizer pass (instrumented std via -Zbuild-std)
+    tb = subprocess.run(["cargo", "+nightly", "build", "--release", "--offline"], cwd="/verif/racecheck", env={k: v for k, v in env.items() if k != "ASAN_OPTIONS"}, capture_output=True, text=True)
+    if tb.returncode != 0:
+        sys.stderr.write("C17: TSan build failed (machinery error)\n" + tb.stderr[-3000:])
+        return 2
+    tenv = dict(env); tenv.pop("ASAN_OPTIONS", None)
+    tenv["TSAN_OPTIONS"] = "halt_on_error=0 report_signal_unsafe=0"
+    tenv["RACECHECK_ROUNDS"] = "600" if tier != "thorough" else "6000"
+    runs.append(("tsan", ["/verif/target-tsan/x86_64-unknown-linux-gnu/release/racecheck"], tenv))
     results = {}
     violations = []
     for name, cmd, e in runs:
@@ -37,8 +46,8 @@ def main():
             results[name] = json.loads(out[-1]) if out else {}
         except Exception:
             results[name] = {}
-        if r.returncode != 0 or "AddressSanitizer" in r.stderr or "unsafe precondition" in r.stderr:
-            kind = "asan-report" if "AddressSanitizer" in r.stderr else ("ub-check-abort" if "unsafe precondition" in r.stderr else ("kernel-mismatch" if results[name].get("mismatches") else "abnormal-exit"))
+        if r.returncode != 0 or "AddressSanitizer" in r.stderr or "ThreadSanitizer" in r.stderr or "unsafe precondition" in r.stderr:
+            kind = "tsan-data-race" if "ThreadSanitizer" in r.stderr else "panic" if (name == "tsan" and "panicked at" in r.stderr) else "asan-report" if "AddressSanitizer" in r.stderr else ("ub-check-abort" if "unsafe precondition" in r.stderr else ("kernel-mismatch" if results[name].get("mismatches") else "abnormal-exit"))
             # structural signature: first frame inside the engine sources
             frame = ""
             for line in r.stderr.splitlines():
@@ -83,9 +92,10 @@ def main():
             "samples": [{"kernel": "avx2+fma dot len=33 off=1"}, {"index_sequence": ["Add", "AddDupVec", "SearchBigK", "AddDupId"], "dim": 17, "M": 5, "capacity": 2}],
             "exhaustive": True,
             "kernels": k, "index": ix,
+            "tsan_free_running_pass": dict(results.get("tsan", {}), note="complementary detector, NOT exhaustive: 7 free-running threads per scenario (writers incl. tombstone compaction on tiny capacities, searches, point / bulk / filtered reads, snapshots, drains) on HnswBackend (with and without persistence) and TieredEngine with the production parking_lot, compiled with -Zsanitizer=thread and an instrumented std; schedules are whatever the OS produces. It backs the assumption of the lock-granularity schedule explorers (C05/C07/C08/C09/C14/C19) that no shared memory is touched outside a lock"),
         },
         "assumptions": ["AddressSanitizer + std ub_checks are the oracle: an out-of-bounds, use-after-free or violated unsafe precondition aborts the run; reads of initialised-but-wrong in-bounds memory are not detected",
-                        "cancellation 'at any point' is reduced to a pre-cancelled flag; concurrent readers run free (not exhaustive)",
+                        "cancellation 'at any point' is reduced to a pre-cancelled flag; concurrent readers run free (not exhaustive) — under ASan in the index part and under ThreadSanitizer in the separate free-running pass",
                         "the engine's own SIMD dispatch picks the best ISA of this CPU; the other ISAs are reached through the appended child module of simd.rs"],
         "wall_s": time.time() - t0, "violations": nviol,
     }
